@@ -30,6 +30,8 @@ RULE = (
 ASSUMPTIONS = [
     "statement iterator -> GRAPHS physical type through graphs_stream_frames is excluded: grouping by graph name needs "
     "look-ahead by documented design",
+    "GraphStream.graph(): the first pull of each call is exempt from the pending-rows bound (graph-start rows have just "
+    "been appended and the bound is checked after each statement); frames-vs-pulls consistency is still checked there",
     "a read that finds no delivered byte is what would block on a real socket; the harness turns it into an exception",
 ]
 
@@ -43,8 +45,11 @@ def write_case(draw):
     mode = "rdflib" if integration == "rdflib" else "gen"
     stmts = draw(gen.statement_seq(arity=arity, mode=mode, max_len=14, min_len=1))
     if phys == "GRAPHS":
-        g = stmts[0][3]
-        stmts = [[*s[:3], g] for s in stmts]
+        # 1..3 graphs, each a run of consecutive statements, driven through successive GraphStream.graph() calls
+        k = draw(st.integers(1, 3))
+        names = [stmts[0][3]] + [["iri", "http://ex.org/g%d" % i] for i in range(1, k)]
+        per = max(1, len(stmts) // k)
+        stmts = [[*s[:3], names[min(i // per, k - 1)]] for i, s in enumerate(stmts)]
         entry = "graph"
     else:
         entry = draw(st.sampled_from(["flat_stream_to_frames", "stream_frames"]))
@@ -97,9 +102,14 @@ def body_write(case, acc):
         s = holder.get("stream")
         return len(s.flow) if s is not None else None
 
+    counter = {"n": 0}
+
     def source(items):
-        for i, o in enumerate(items):
-            events.append(("pull", i + 1, pending()))
+        for k, o in enumerate(items):
+            counter["n"] += 1
+            # the first pull of every graph() call happens right after that call appended its graph-start rows;
+            # like the very first statement it is exempt from the bound (the bound is checked after each statement)
+            events.append(("pull", counter["n"] if k else 1, pending()))
             yield o
 
     if integ == "generic":
@@ -128,7 +138,16 @@ def body_write(case, acc):
                 stream = pyj.make_stream(case, integ)
                 holder["stream"] = stream
                 stream.enroll()
-                it = stream.graph(objs[0][3], source([o[:3] for o in objs]))
+
+                def graphs():
+                    i = 0
+                    while i < len(objs):
+                        j = i
+                        while j < len(objs) and stmts[j][3] == stmts[i][3]:
+                            j += 1
+                        yield from stream.graph(objs[i][3], source([o[:3] for o in objs[i:j]]))
+                        i = j
+                it = graphs()
             for frame in it:
                 if "stream" not in holder and cap.streams:
                     holder["stream"] = cap.streams[-1]
